@@ -6,6 +6,7 @@ use std::sync::Mutex;
 use std::time::Duration;
 
 mod simfs;
+mod suite_corrupt;
 mod suite_crash;
 mod suite_db;
 mod suite_fault;
@@ -46,6 +47,7 @@ fn main() {
         "dbhist" => suite_db::run_dbhist,
         "crash" => suite_crash::run_crash,
         "fault" => suite_fault::run_fault,
+        "corrupt" => suite_corrupt::run_corrupt,
         _ => panic!("unknown suite {}", suite),
     };
     let timeout = Duration::from_secs(
